@@ -4,30 +4,32 @@ From AV Require Import Model.Schema Model.Diff Spec.C06 Spec.C07 Proofs.SchemaPr
 (* each applicable mutation of the catalogue yields, under every setting that looks for it, an operation of the
    corresponding kind(s) on the mutated object (defaults_ok A is used by the "server default changed" kind only: the
    reflected form of the old default must normalise like the old default) *)
-Theorem C07_detects : forall g A m, wf_schemab A = true -> defaults_ok A = true -> applicable m A = true -> enabled g m = true ->
+Theorem C07_detects : forall g A m, wf_schemab A = true -> defaults_ok A = true -> no_unnamed_uq A = true ->
+  applicable m A = true -> enabled g m = true ->
   detects A m (diff g (reflect_sqlite A) (apply_mut m A)).
-Proof. intros g A m HA Hd Ha He. apply detects_catalogue; auto; [apply wf_nd_schema|apply dok_of_defaults_ok]; auto. Qed.
+Proof. intros g A m HA Hd Hu Ha He. apply detects_catalogue; auto; [apply wf_nd_schema|apply dok_of_defaults_ok|apply named_of_no_unnamed]; auto. Qed.
 Print Assumptions C07_detects.
 
 (* ... and every emitted operation is about an object the mutation touches *)
 Theorem C07_nothing_unrelated : forall g A m, wf_schemab A = true -> applicable m A = true ->
-  wf_schemab (apply_mut m A) = true -> defaults_ok (apply_mut m A) = true ->
+  wf_schemab (apply_mut m A) = true -> defaults_ok (apply_mut m A) = true -> no_unnamed_uq (apply_mut m A) = true ->
   nothing_else A m (diff g (reflect_sqlite A) (apply_mut m A)).
-Proof. intros g A m HA Ha HB Hd. apply nothing_else_catalogue; auto; try (apply wf_nd_schema; auto). apply dok_of_defaults_ok; auto. Qed.
+Proof. intros g A m HA Ha HB Hd Hu. apply nothing_else_catalogue; auto; try (apply wf_nd_schema; auto);
+  [apply dok_of_defaults_ok|apply named_of_no_unnamed]; auto. Qed.
 Print Assumptions C07_nothing_unrelated.
 
 (* the general fact behind it, for ALL pairs of well-formed schemas: an operation is only ever emitted for an object
    whose lookup (table by name; column / constraint / index / foreign key by table and name) differs between database and model *)
-Theorem C07_diff_local : forall g A B o, wf_schemab A = true -> wf_schemab B = true -> defaults_ok B = true ->
+Theorem C07_diff_local : forall g A B o, wf_schemab A = true -> wf_schemab B = true -> defaults_ok B = true -> no_unnamed_uq B = true ->
   In o (diff g (reflect_sqlite A) B) -> changed A B (op_target o).
-Proof. intros g A B o HA HB Hd. apply diff_local; try (apply wf_nd_schema; auto). apply dok_of_defaults_ok; auto. Qed.
+Proof. intros g A B o HA HB Hd Hu. apply diff_local; try (apply wf_nd_schema; auto); [apply dok_of_defaults_ok|apply named_of_no_unnamed]; auto. Qed.
 Print Assumptions C07_diff_local.
 
 (* without defaults_ok the "nothing unrelated" half is false: a string default such as "(a)" is reported on every column
    that carries it, whatever the change was (same root cause as C06_quiet_refuted) *)
 Open Scope N_scope.
 Definition bad7_A : schema :=
-  [mkTable 0 [mkCol 0 (mkTy 0 []) false true None true; mkCol 1 (mkTy 3 [20]) true false (Some (DLit [40;97;41])) true; mkCol 2 (mkTy 0 []) true false None true] [] []].
+  [mkTable 0 [mkCol 0 (mkTy 0 []) false true None true; mkCol 1 (mkTy 3 [20]) true false (Some (DLit [40;97;41])) true; mkCol 2 (mkTy 0 []) true false None true] [] [] []].
 Theorem C07_nothing_unrelated_refuted : exists g A m, wf_schemab A = true /\ applicable m A = true /\ wf_schemab (apply_mut m A) = true /\
   ~ nothing_else A m (diff g (reflect_sqlite A) (apply_mut m A)).
 Proof. exists (mkCfg true true), bad7_A, (MFlipNullable 0 2). repeat (split; [reflexivity|]).
@@ -49,10 +51,10 @@ Print Assumptions C07_model_holds.
    decider accepts the model's output *)
 Definition ex7_A : schema :=
   [mkTable 0 [mkCol 0 (mkTy 0 []) false true None true; mkCol 1 (mkTy 3 [20]) true false (Some (DLit [53])) true; mkCol 2 (mkTy 5 [10;2]) true false None true]
-             [Uq 1 [1]; Ix 2 [2;1] false] [mkFk 1 [2] 0 [0] no_opts true];
-   mkTable 1 [mkCol 0 (mkTy 0 []) false true None true; mkCol 7 (mkTy 0 []) true false (Some (DComputed [99;48;32;43;32;49] None)) false] [] []].
+             [Uq 1 [1]; Ix 2 [2;1] false] [mkFk 1 [2] 0 [0] no_opts true] [];
+   mkTable 1 [mkCol 0 (mkTy 0 []) false true None true; mkCol 7 (mkTy 0 []) true false (Some (DComputed [99;48;32;43;32;49] None)) false] [] [] []].
 Definition ex7_muts : list mut :=
-  [MAddTable (mkTable 2 [mkCol 0 (mkTy 0 []) false true None true] [Ix 20 [0] false] [mkFk 20 [0] 0 [0] no_opts true]); MDropTable 1;
+  [MAddTable (mkTable 2 [mkCol 0 (mkTy 0 []) false true None true] [Ix 20 [0] false] [mkFk 20 [0] 0 [0] no_opts true] []); MDropTable 1;
    MAddColumn 1 (mkCol 5 (mkTy 4 []) true false (Some (DExpr [49])) true); MDropColumn 1 0; MFlipNullable 0 1; MFlipNullable 1 7 (* a generated column whose nullable was unset *); MChangeType 0 2 (mkTy 9 []);
    MChangeDefault 0 1 None; MChangeDefault 0 1 (Some (DExpr [39;54;39])); MChangeDefault 0 2 (Some (DLit [120]));
    MAddCons 0 (Uq 3 [2]); MAddCons 0 (Ix 4 [0] true); MDropCons 0 1; MDropCons 0 2; MChangeCons 0 (Uq 1 [2]); MChangeCons 0 (Ix 2 [2;1] true);
